@@ -27,6 +27,19 @@ def declaredReadOnly : List (String × String) :=
 def genReadOnly : List (String × String) :=
   (refFields.filter fun (_, _, _, w) => !w).map (fun (t, f, _, _) => (t, f))
 
+/-- process-wide registries (package-level slices/maps of pkg/bmnumbers and pkg/procbuilder) and the only
+    functions allowed to write them: the package initialisers and the explicit registration functions
+    (`EventuallyCreateType`, `EventuallyCreateInstruction`), which a driver calls *before* it starts
+    simulations.  They are part of `Globals`; a simulation must leave them unchanged — the harness checks
+    their sizes around every simulation (`global-state-grew`). -/
+def declaredRegistries : List (String × String × String × List String) :=
+  [("bmnumbers", "AllDynamicalTypes", "slice", ["init"]),
+   ("bmnumbers", "AllMatchers", "map", ["EventuallyCreateType", "init"]),
+   ("bmnumbers", "AllTypes", "slice", ["EventuallyCreateType", "init"]),
+   ("procbuilder", "AllDynamicalInstructions", "slice", ["init"]),
+   ("procbuilder", "Allopcodes", "slice", ["EventuallyCreateInstruction", "init"]),
+   ("procbuilder", "Allshared", "slice", ["init"])]
+
 /-- where the ISA model keeps the phase of addp / multp in the current tree -/
 def genDom : Dom :=
   { addp := genGlobals.any (fun (t, _) => t == "Addp"),
